@@ -1,19 +1,198 @@
-"""C17 - XML-RPC commands are gated by Supvisors state and fail cleanly."""
+"""C17 - XML-RPC commands are gated by Supvisors state and fail cleanly.
+
+Statement: 'Each XML-RPC is served only in its documented Supvisors states - status queries from DISTRIBUTION on,
+start/restart/test_start/update_numprocs/enable/disable/restart_sequence in OPERATION only, stop requests in OPERATION
+or CONCILIATION, conciliate in CONCILIATION, end_sync in SYNCHRONIZATION with the USER option, restart/shutdown from
+DISTRIBUTION on - and otherwise raises BAD_SUPVISORS_STATE without any effect. Unknown application, process or
+instance names raise BAD_NAME, unknown strategies INCORRECT_PARAMETERS, unmanaged applications NOT_MANAGED, and a
+rejected request emits no start, stop or state change.'
+
+The FSM state is a symbolic member of SupvisorsStates: every contract below is proved for the nine states at once.
+"""
 from pyvc.spec import *
+from supervisor.options import split_namespec
+
+BAD_STATE = SupvisorsFaults.BAD_SUPVISORS_STATE.value
+NOT_MANAGED = SupvisorsFaults.NOT_MANAGED.value
+NOT_APPLICABLE = SupvisorsFaults.NOT_APPLICABLE.value
+# the fault codes of a *rejected* request (statement: 'a rejected request emits no start, stop or state change')
+REJECTED = (SupvisorsFaults.BAD_SUPVISORS_STATE.value, SupvisorsFaults.NOT_MANAGED.value, Faults.BAD_NAME,
+            Faults.INCORRECT_PARAMETERS)
+
+FROM_DISTRIBUTION = (SupvisorsStates.DISTRIBUTION, SupvisorsStates.OPERATION, SupvisorsStates.CONCILIATION,
+                     SupvisorsStates.RESTARTING, SupvisorsStates.SHUTTING_DOWN)
+OPERATION_CONCILIATION = (SupvisorsStates.OPERATION, SupvisorsStates.CONCILIATION)
 
 
+# ------------------------------------------------------------------------------------------ structural validity
+def valid(rpc):
+    """Structural validity the code relies on everywhere (DESIGN 1.4, last bullet; established by
+    Supvisors.__init__ / SupvisorsStateModes.__init__ / Context.__init__ and kept by add_instance): one global
+    Supvisors structure shared by all components, and the local instance has its StateModes / status entries."""
+    sv = rpc.supvisors
+    return (sv.fsm.supvisors is sv and sv.state_modes.supvisors is sv and sv.context.supvisors is sv
+            and sv.mapper.local_identifier in sv.state_modes.instance_state_modes)
+
+
+def fsm_state(rpc):
+    """the gate input (anchor: fsm.state, rpcinterface.py _check_state), over raw fields"""
+    sv = rpc.supvisors
+    return sv.state_modes.instance_state_modes[sv.mapper.local_identifier].state
+
+
+def rejected_cleanly(exc):
+    """'... raises BAD_SUPVISORS_STATE without any effect', 'a rejected request emits no start, stop or state
+    change': no ghost effect was logged and no pre-existing heap location was written"""
+    return implies(exc.code in REJECTED, no_effect() and unchanged())
+
+
+# ------------------------------------------------------------------------------------------ helpers: state gates
 @contract('rpcinterface:RPCInterface._check_state', props=['C17'])
 class CheckState:
-    """'... and otherwise raises BAD_SUPVISORS_STATE without any effect'"""
+    """'... and otherwise raises BAD_SUPVISORS_STATE without any effect': returns normally iff the FSM state is one of
+    `states`, else raises RPCError(BAD_SUPVISORS_STATE); modifies nothing"""
     raises = ('RPCError',)
     types = {'states': 'List[SupvisorsStates]'}
 
     def modifies(self):
         return []
 
+    def pre_valid(self):
+        return valid(self)
+
     def post_only_in_listed_states(self, states):
-        return self.supvisors.fsm.state_modes.local_state_modes.state in states
+        return fsm_state(self) in states
 
     def exc_RPCError_bad_state(self, states, exc):
-        return (self.supvisors.fsm.state_modes.local_state_modes.state not in states
-                and exc.code == SupvisorsFaults.BAD_SUPVISORS_STATE.value and no_effect())
+        return fsm_state(self) not in states and exc.code == BAD_STATE and no_effect()
+
+
+@contract('rpcinterface:RPCInterface._check_from_distribution', props=['C17'])
+class CheckFromDistribution:
+    """'status queries from DISTRIBUTION on', 'restart/shutdown from DISTRIBUTION on'"""
+    raises = ('RPCError',)
+
+    def modifies(self):
+        return []
+
+    def pre_valid(self):
+        return valid(self)
+
+    def post_state(self):
+        return fsm_state(self) in FROM_DISTRIBUTION
+
+    def exc_RPCError_bad_state(self, exc):
+        return fsm_state(self) not in FROM_DISTRIBUTION and exc.code == BAD_STATE and no_effect()
+
+
+@contract('rpcinterface:RPCInterface._check_operating', props=['C17'])
+class CheckOperating:
+    """'start/restart/test_start/update_numprocs/enable/disable/restart_sequence in OPERATION only'"""
+    raises = ('RPCError',)
+
+    def modifies(self):
+        return []
+
+    def pre_valid(self):
+        return valid(self)
+
+    def post_state(self):
+        return fsm_state(self) == SupvisorsStates.OPERATION
+
+    def exc_RPCError_bad_state(self, exc):
+        return fsm_state(self) != SupvisorsStates.OPERATION and exc.code == BAD_STATE and no_effect()
+
+
+@contract('rpcinterface:RPCInterface._check_operating_conciliation', props=['C17'])
+class CheckOperatingConciliation:
+    """'stop requests in OPERATION or CONCILIATION'"""
+    raises = ('RPCError',)
+
+    def modifies(self):
+        return []
+
+    def pre_valid(self):
+        return valid(self)
+
+    def post_state(self):
+        return fsm_state(self) in OPERATION_CONCILIATION
+
+    def exc_RPCError_bad_state(self, exc):
+        return fsm_state(self) not in OPERATION_CONCILIATION and exc.code == BAD_STATE and no_effect()
+
+
+@contract('rpcinterface:RPCInterface._check_conciliation', props=['C17'])
+class CheckConciliation:
+    """'conciliate in CONCILIATION'"""
+    raises = ('RPCError',)
+
+    def modifies(self):
+        return []
+
+    def pre_valid(self):
+        return valid(self)
+
+    def post_state(self):
+        return fsm_state(self) == SupvisorsStates.CONCILIATION
+
+    def exc_RPCError_bad_state(self, exc):
+        return fsm_state(self) != SupvisorsStates.CONCILIATION and exc.code == BAD_STATE and no_effect()
+
+
+# ------------------------------------------------------------------------------------------ helpers: names
+@contract('rpcinterface:RPCInterface._get_application', props=['C17'])
+class GetApplication:
+    """'Unknown application ... names raise BAD_NAME'"""
+    raises = ('RPCError',)
+
+    def modifies(self):
+        return []
+
+    def post_known(self, application_name, result):
+        apps = self.supvisors.context.applications
+        return application_name in apps and result is apps[application_name]
+
+    def exc_RPCError_bad_name(self, application_name, exc):
+        return (application_name not in self.supvisors.context.applications and exc.code == Faults.BAD_NAME
+                and no_effect())
+
+
+@contract('rpcinterface:RPCInterface._get_process', props=['C17'])
+class GetProcess:
+    """'Unknown ... process ... names raise BAD_NAME'"""
+    raises = ('RPCError',)
+    returns = 'ProcessStatus'
+
+    def modifies(self):
+        return []
+
+    def post_known(self, application, process_name, result):
+        return process_name in application.processes and result is application.processes[process_name]
+
+    def exc_RPCError_bad_name(self, application, process_name, exc):
+        return process_name not in application.processes and exc.code == Faults.BAD_NAME and no_effect()
+
+
+@contract('rpcinterface:RPCInterface._get_application_process', props=['C17'])
+class GetApplicationProcess:
+    """'Unknown application, process ... names raise BAD_NAME': the namespec is split by Supervisor's split_namespec
+    (assumed external, a function of its argument); the group must be a known application and, unless the namespec
+    designates the whole group ('group:*' / 'group:'), the process must be known in that application"""
+    raises = ('RPCError',)
+
+    def modifies(self):
+        return []
+
+    def post_known(self, namespec, result):
+        apps = self.supvisors.context.applications
+        names = split_namespec(namespec)
+        return (names[0] in apps and result[0] is apps[names[0]]
+                and ite(names[1] is None or names[1] == '', result[1] is None,
+                        names[1] in result[0].processes and result[1] is result[0].processes[names[1]]))
+
+    def exc_RPCError_bad_name(self, namespec, exc):
+        apps = self.supvisors.context.applications
+        names = split_namespec(namespec)
+        return (exc.code == Faults.BAD_NAME and no_effect()
+                and (names[0] not in apps
+                     or (names[1] is not None and names[1] != '' and names[1] not in apps[names[0]].processes)))
